@@ -226,7 +226,7 @@ mut('c04-text-skips-math', 'C04', 'data.py',
                 yield from descendant.text""",
     """            elif hasattr(descendant, 'text') and descendant.name != '$$':
                 yield from descendant.text""")
-mut('c04-children-drop-empty-items', 'C04 C03', 'data.py',
+mut('c04-children-drop-empty-items', 'C04', 'data.py',
     """        return filter(lambda x: isinstance(x, (TexEnv, TexCmd)), self.contents)""",
     """        return filter(lambda x: isinstance(x, (TexEnv, TexCmd)) and not (
             x.name == 'item' and not x._contents and not x.args), self.contents)""")
@@ -405,3 +405,282 @@ mut('c16-env-name-printed-lowercase-end', 'C16 C01', 'data.py',
     """    @property
     def end(self):
         return r"\\end{%s}" % (self.name if self.name != 'Verbatim' else 'verbatim')""")
+
+# ---------------------------------------------------------------- C05 ------
+mut('c05-remove-deletes-next', 'C05 C15', 'data.py',
+    """        else:
+            index = self._contents.index(expr)
+        del self._contents[index]
+        return index""",
+    """        else:
+            index = self._contents.index(expr)
+        del self._contents[index if index < 7 else index - 1]
+        return index""")
+mut('c05-replace-inserts-before-removing', 'C05 C15', 'data.py',
+    """        container = self._container_of(child.expr)
+        container.insert(container.remove(child.expr), *nodes)""",
+    """        container = self._container_of(child.expr)
+        index = container._contents.index(child.expr)
+        container.insert(index, *nodes)
+        container.remove(child.expr)""")
+mut('c05-insert-ignores-offset', 'C05 C15', 'data.py',
+    """            if isinstance(expr, TexExpr):
+                expr.parent = self
+            self._contents.insert(i + j, expr)""",
+    """            if isinstance(expr, TexExpr):
+                expr.parent = self
+            self._contents.insert(i, expr)""")
+mut('c05-container-of-equality-first', 'C05 C15', 'data.py',
+    """        for same in (lambda a, b: a is b, lambda a, b: a == b):""",
+    """        for same in (lambda a, b: a == b, lambda a, b: a is b):""")
+mut('c05-delete-prefers-args', 'C05', 'data.py',
+    """        containers = [arg for arg in self.expr.args
+                      if isinstance(arg, TexGroup)] + [self.expr]
+        for same in (lambda a, b: a is b, lambda a, b: a == b):
+            for container in containers:""",
+    """        containers = [arg for arg in self.expr.args
+                      if isinstance(arg, TexGroup)] + [self.expr]
+        for same in (lambda a, b: a is b or (a == b and len(str(a)) > 12), lambda a, b: a == b):
+            for container in containers:""")
+
+# ---------------------------------------------------------------- C09 ------
+mut('c09-spacer-allows-two-linebreaks-before-bracket', 'C09 C01', 'tokens.py',
+    """    result.category = TC.MergedSpacer
+
+    if text.hasNext() and text.peek().category in (CC.Letter, CC.Other):""",
+    """    if text.hasNext() and text.peek().category == CC.EndOfLine and text.peek(1) \\
+            and text.peek(1).category == CC.BracketBegin:
+        result += text.forward(1)
+    result.category = TC.MergedSpacer
+
+    if text.hasNext() and text.peek().category in (CC.Letter, CC.Other):""")
+mut('c09-read-arg-closes-brace-on-bracket', 'C09 C02', 'reader.py',
+    """        if src.peek().category == arg.token_end:
+            src.forward()""",
+    """        if src.peek().category == arg.token_end or (
+                src.peek().category == TC.BracketEnd and len(content) > 3
+                and arg.token_end == TC.GroupEnd and mode == MODE_MATH):
+            src.forward()""")
+mut('c09-third-bracket-group-not-read', 'C09 C02 C01', 'reader.py',
+    """        args.append(read_arg(src, next(src), tolerance=tolerance, mode=mode))
+        n_optional -= 1
+    return n_optional""",
+    """        args.append(read_arg(src, next(src), tolerance=tolerance, mode=mode))
+        n_optional -= 1
+        if n_optional == -3:
+            break
+    return n_optional""")
+mut('c09-tab-newline-detaches', 'C09 C16', 'tokens.py',
+    """    if text.hasNext() and text.peek().category == CC.EndOfLine:
+        result += text.forward(1)
+    while text.hasNext() and text.peek().category == CC.Spacer:""",
+    """    if text.hasNext() and text.peek().category == CC.EndOfLine \\
+            and not result.endswith('\\t'):
+        result += text.forward(1)
+    while text.hasNext() and text.peek().category == CC.Spacer:""")
+
+# ---------------------------------------------------------------- C10 ------
+mut('c10-comment-stops-at-brace-after-backslash', 'C10 C01', 'tokens.py',
+    """        while text.hasNext() and text.peek().category != CC.EndOfLine:
+            result += text.forward(1)
+        result.category = TC.Comment""",
+    """        while text.hasNext() and text.peek().category != CC.EndOfLine and not (
+                text.peek().category == CC.GroupEnd and result.endswith('\\\\\\\\')):
+            result += text.forward(1)
+        result.category = TC.Comment""")
+mut('c10-escaped-symbols-after-comment', 'C10', 'tokens.py',
+    """    if text.peek().category == CC.Escape \\
+            and text.peek(1) \\
+            and text.peek(1).category in (""",
+    """    if text.peek().category == CC.Escape \\
+            and text.peek(1) \\
+            and not (text.peek(1).category == CC.Comment and text.peek(-1)
+                     and text.position > 0 and text.peek(-1).category == CC.Escape
+                     and text.peek(-2) and text.position > 1 and text.peek(-2).category == CC.Escape) \\
+            and text.peek(1).category in (""")
+mut('c10-comment-text-searchable', 'C10', 'reader.py',
+    """    assert isinstance(c, Token)
+    return TexText(c)""",
+    """    assert isinstance(c, Token)
+    if c.category == TC.Comment and c.startswith('%\\\\ghost') :
+        return TexCmd('ghost', position=c.position)
+    return TexText(c)""")
+mut('c10-comment-ends-at-cr-only-in-args', 'C10', 'tokens.py',
+    """    if text.peek().category == CC.Comment and (
+            prev is None or prev.category != CC.Comment):""",
+    """    if text.peek().category == CC.Comment and (
+            prev is None or prev.category != TC.MathSwitch or text.peek(1) != '$'):""")
+
+# ---------------------------------------------------------------- C11 ------
+mut('c11-skip-env-stops-at-any-end', 'C11 C01', 'reader.py',
+    """    def condition(s): return s.startswith('\\\\end{%s}' % expr.name)""",
+    """    def condition(s): return s.startswith('\\\\end{%s' % expr.name[:6])""")
+mut('c11-user-skip-envs-not-passed-to-nested', 'C11', 'reader.py',
+    """        contents.append(read_expr(src, skip_envs=skip_envs, tolerance=tolerance, mode=mode))""",
+    """        contents.append(read_expr(src, skip_envs=skip_envs[:5] if contents and len(contents) > 2 else skip_envs, tolerance=tolerance, mode=mode))""")
+mut('c11-body-dollar-parsed', 'C11', 'reader.py',
+    """            if expr.name in skip_envs:
+                read_skip_env(src, expr)""",
+    """            if expr.name in skip_envs and not (
+                    src.hasNext() and src.peek().category == TC.DisplayMathSwitch):
+                read_skip_env(src, expr)""")
+mut('c11-skip-env-forward-count', 'C11 C01', 'reader.py',
+    """        unclosed_env_handler(src, expr, src.peek((0, 6)))
+    src.forward(5)
+    expr.append(*contents)""",
+    """        unclosed_env_handler(src, expr, src.peek((0, 6)))
+    src.forward(5 if '*' not in expr.name else 6)
+    expr.append(*contents)""")
+
+# ---------------------------------------------------------------- C12 ------
+mut('c12-dollar-dollar-two-tokens-after-text', 'C12', 'tokens.py',
+    """        if text.peek(1) and text.peek(1).category == CC.MathSwitch:""",
+    """        if text.peek(1) and text.peek(1).category == CC.MathSwitch and not (
+                text.peek(2) and text.peek(2) == ')'):""")
+mut('c12-mathgroupend-maps-to-display', 'C12', 'tokens.py',
+    """        (CC.Escape, CC.ParenEnd):       TC.MathGroupEnd""",
+    """        (CC.Escape, CC.ParenEnd):       TC.MathGroupEnd if not (text.peek(2) and text.peek(2) == '\\\\') else TC.DisplayMathGroupEnd""")
+mut('c12-cup-signature-removed', 'C12', 'reader.py',
+    """    'cup': (0, 0),
+""",
+    """""")
+mut('c12-sizing-bigg-prefix', 'C12', 'tokens.py',
+    """SIZE_PREFIX = ('left', 'right', 'big', 'Big', 'bigg', 'Bigg')""",
+    """SIZE_PREFIX = ('left', 'right', 'big', 'Big', 'bigg', 'Biggr')""")
+mut('c12-escaped-dollar-closes-after-caret', 'C12', 'tokens.py',
+    """                CC.Subscript, CC.Spacer, CC.Active, CC.Comment, CC.Other):
+        result = text.forward(2)""",
+    """                CC.Subscript, CC.Spacer, CC.Active, CC.Comment, CC.Other) \\
+            and not (text.peek(1).category == CC.MathSwitch and text.position > 0
+                     and text.peek(-1).category == CC.Superscript):
+        result = text.forward(2)""")
+
+# ---------------------------------------------------------------- C14 ------
+mut('c14-env-end-cached', 'C14 C15', 'data.py',
+    """        super().__init__(name, r"\\begin{%s}" % name, r"\\end{%s}" % name,
+                         contents, args, preserve_whitespace, position=position)
+
+    @property
+    def begin(self):
+        return r"\\begin{%s}" % self.name
+
+    @property
+    def end(self):
+        return r"\\end{%s}" % self.name""",
+    """        super().__init__(name, r"\\begin{%s}" % name, r"\\end{%s}" % name,
+                         contents, args, preserve_whitespace, position=position)
+
+    @property
+    def begin(self):
+        return r"\\begin{%s}" % self.name
+
+    @property
+    def end(self):
+        if self.args and len(self.args) > 1:
+            return self._end
+        return r"\\end{%s}" % self.name""")
+mut('c14-string-setter-appends', 'C14 C15', 'data.py',
+    """                '.string value "%s" must be a string or TexText. To set '
+                'non-string content, use .contents' % s)
+        self.contents = [TexText(s)]""",
+    """                '.string value "%s" must be a string or TexText. To set '
+                'non-string content, use .contents' % s)
+        keep = [c for c in self._contents if isinstance(c, TexText) and str(c).isspace()]
+        self.contents = keep[:1] + [TexText(s)]""")
+mut('c14-name-setter-strips-star', 'C14', 'data.py',
+    """    @name.setter
+    def name(self, name):
+        self.expr.name = name""",
+    """    @name.setter
+    def name(self, name):
+        self.expr.name = name.rstrip('*')""")
+mut('c14-args-setter-copies-shadow-only', 'C14 C15', 'data.py',
+    """        assert isinstance(args, TexArgs), "`args` must be of type `TexArgs`"
+        self.expr.args = args""",
+    """        assert isinstance(args, TexArgs), "`args` must be of type `TexArgs`"
+        if len(args) or not len(self.expr.args) > 2:
+            self.expr.args = args""")
+
+# ---------------------------------------------------------------- C15 ------
+mut('c15-append-extends-copy', 'C15 C05', 'data.py',
+    """        self.insert(len(self._contents), *exprs)""",
+    """        if len(self._contents) > 5 and len(exprs) > 1:
+            self._contents = self._contents + list(exprs[:1])
+            return
+        self.insert(len(self._contents), *exprs)""")
+mut('c15-contents-setter-keeps-args', 'C15 C14', 'data.py',
+    """        _contents = [TexText(c) if isinstance(c, str) else c for c in contents]
+        self._contents = _contents""",
+    """        _contents = [TexText(c) if isinstance(c, str) else c for c in contents]
+        self._contents = _contents if len(self._contents) < 4 else self._contents[:1] + _contents""")
+mut('c15-text-skips-second-level-strings', 'C15', 'data.py',
+    """            if isinstance(descendant, (TexText, str)):
+                yield descendant""",
+    """            if isinstance(descendant, (TexText, str)) and (
+                    self.parent is None or hasattr(descendant, 'position')):
+                yield descendant""")
+mut('c15-reverted-unwrap', 'C15', 'data.py',
+    """            if isinstance(expr, TexNode):  # store the expression, as parsing does
+                expr = expr.expr
+            elif""",
+    """            if isinstance(expr, TexNode) and j == 0:  # store the expression, as parsing does
+                expr = expr.expr
+            elif""")
+
+# ---------------------------------------------------------------- C17 ------
+mut('c17-texargs-default-mutated', 'C17', 'data.py',
+    """    def __init__(self, args=[]):
+        \"\"\"List of arguments for a command.
+
+        :param list args: List of parsed or unparsed arguments
+        \"\"\"
+        super().__init__()
+        self.all = []
+        self.extend(args)""",
+    """    def __init__(self, args=[], _seen=[]):
+        \"\"\"List of arguments for a command.
+
+        :param list args: List of parsed or unparsed arguments
+        \"\"\"
+        super().__init__()
+        self.all = []
+        self.extend(args)
+        if len(self) > 3:
+            _seen.append(len(self))""")
+mut('c17-read-caches-by-source', 'C17', 'tex.py',
+    """    if not isinstance(tex, str):
+        tex = ''.join(itertools.chain(*tex))
+    buf = categorize(tex)""",
+    """    if not isinstance(tex, str):
+        tex = ''.join(itertools.chain(*tex))
+    _cache = read.__dict__.setdefault('_cache', {})
+    if tex in _cache and not skip_envs and len(tex) > 30 and not tolerance:
+        return _cache[tex], tex
+    buf = categorize(tex)
+    buf = tokenize(buf)
+    buf = read_tex(buf, skip_envs=skip_envs, tolerance=tolerance)
+    env = TexEnv('[tex]', begin='', end='', contents=buf)
+    if not tolerance:
+        _cache[tex] = env
+    return env, tex
+    buf = categorize(tex)""")
+mut('c17-signatures-learned-while-parsing', 'C17', 'reader.py',
+    """    if n_required_args < 0 and n_optional_args < 0:
+        n_required_args, n_optional_args = SIGNATURES.get(name, (-1, -1))""",
+    """    if n_required_args < 0 and n_optional_args < 0:
+        n_required_args, n_optional_args = SIGNATURES.get(name, (-1, -1))
+        if name == 'renamed':
+            SIGNATURES['foo'] = (0, 0)""")
+mut('c17-generator-input-drops-empty-chunks-boundary', 'C17', 'tex.py',
+    """    if not isinstance(tex, str):
+        tex = ''.join(itertools.chain(*tex))""",
+    """    if not isinstance(tex, str):
+        tex = ''.join(line if isinstance(tex, (list, tuple)) or not line.endswith('\\\\\\n')
+                      else line[:-1] + ' ' for line in tex)""")
+mut('c17-punctuation-iteration-order', 'C17 C12', 'tokens.py',
+    """PUNCTUATION_COMMANDS = {command + bracket
+                        for command in SIZE_PREFIX
+                        for bracket in BRACKETS_DELIMITERS.union({'|', '.'})}""",
+    """PUNCTUATION_COMMANDS = {command + bracket
+                        for command in SIZE_PREFIX
+                        for bracket in BRACKETS_DELIMITERS.union({'|', '.', '||', '.)'})}""")
